@@ -446,6 +446,77 @@ theorem optimizeShell_span (val : ν → ℚ) (zero : ν) (hz : val zero = 0) (s
       rw [span_filter_nonzero, ← span_famOf, famOf_zeroedOf val zero hz,
         span_zeroAll (famOf val sh.coefs) (rowColPairs val sh.coefs) (rowColPairs_single val sh.coefs) hnd', span_famOf]
 
+/-! ### never more non-zero coefficients -/
+
+/-- number of non-zero coefficients of a contraction matrix -/
+def nnz (val : ν → ℚ) (coefs : List (List ν)) : ℕ := (coefs.map fun col => (col.filter fun c => val c != 0).length).sum
+
+theorem nnz_col_le (val : ν → ℚ) (zero : ν) (hz : val zero = 0) (P : ν × ℕ → Prop) [DecidablePred P] (col : List ν) :
+    ((col.zipIdx.map fun ce => if P ce then zero else ce.1).filter fun c => val c != 0).length
+      ≤ (col.filter fun c => val c != 0).length := by
+  have key : ∀ (l : List (ν × ℕ)),
+      ((l.map fun ce => if P ce then zero else ce.1).filter fun c => val c != 0).length
+        ≤ ((l.map (·.1)).filter fun c => val c != 0).length := by
+    intro l
+    induction l with
+    | nil => simp
+    | cons a as ih =>
+      simp only [List.map_cons, List.filter_cons]
+      by_cases hp : P a
+      · simp only [hp, if_true, hz, bne_self_eq_false, Bool.false_eq_true, if_false]
+        split
+        · simp only [List.length_cons]; omega
+        · exact ih
+      · simp only [hp, if_false]
+        split
+        · simp only [List.length_cons]; omega
+        · exact ih
+  have := key col.zipIdx
+  have hfst : col.zipIdx.map (·.1) = col := by simp [List.zipIdx_map_fst]
+  rwa [hfst] at this
+
+theorem sum_filter_le (l : List (List ν)) (p : List ν → Bool) (f : List ν → ℕ) :
+    ((l.filter p).map f).sum ≤ (l.map f).sum := by
+  induction l with
+  | nil => simp
+  | cons a as ih =>
+    simp only [List.filter_cons, List.map_cons, List.sum_cons]
+    split
+    · simp only [List.map_cons, List.sum_cons]; omega
+    · omega
+
+/-- **`optimize_general` never has more non-zero coefficients than the general-contracted shell it starts from**: entries are
+only ever replaced by the zero literal, and contractions are only ever dropped -/
+theorem optimizeShell_nnz_le (val : ν → ℚ) (zero : ν) (hz : val zero = 0) (sh sh' : Shell ν)
+    (h : optimizeShell val zero sh = .ok sh') : nnz val sh'.coefs ≤ nnz val sh.coefs := by
+  unfold optimizeShell at h
+  split at h
+  · cases h; exact Nat.le_refl _
+  · simp only at h
+    split at h
+    · cases h
+    · cases h
+      unfold nnz
+      refine Nat.le_trans (sum_filter_le _ _ _) ?_
+      simp only [List.map_map]
+      have : ∀ (l : List (List ν × ℕ)),
+          (l.map ((fun col => (col.filter fun c => val c != 0).length) ∘ fun pc =>
+              pc.1.zipIdx.map fun ce =>
+                if val ce.1 != 0 ∧ (rowColPairs val sh.coefs).any (fun p => p.1 = ce.2 ∧ p.2 ≠ pc.2) then zero else ce.1)).sum
+            ≤ ((l.map (·.1)).map fun col => (col.filter fun c => val c != 0).length).sum := by
+        intro l
+        induction l with
+        | nil => simp
+        | cons a as ih =>
+          simp only [List.map_cons, List.sum_cons, Function.comp]
+          have h1 := nnz_col_le val zero hz
+            (fun ce => val ce.1 != 0 ∧ (rowColPairs val sh.coefs).any (fun p => p.1 = ce.2 ∧ p.2 ≠ a.2)) a.1
+          have h2 := ih
+          omega
+      have h3 := this sh.coefs.zipIdx
+      have hfst : sh.coefs.zipIdx.map (·.1) = sh.coefs := by simp [List.zipIdx_map_fst]
+      rwa [hfst] at h3
+
 /-- the literal written by the zeroing step is a zero, and `optimize_general` first makes the
 basis general with `skip_spdf = True` (both read from the source) -/
 theorem ogZero_is_zero : numVal BSE.Gen.Manip.ogZero = 0 := by decide +kernel
